@@ -10,6 +10,7 @@ backup loads completely and holds the last acknowledged checkpoint or the one be
 Part B (exhaustive histories): resume from every checkpoint of ground-state searches and time evolutions and
 compare final state, energies and measurement sequences with the uninterrupted run.
 """
+import copy
 import json
 import os
 import shutil
@@ -164,13 +165,13 @@ def read_oplog(prefix, s):
     return out
 
 
-def crash_points(oplog):
+def crash_points(oplog, tears='all'):
     """All (n, tear) for one save: before every op; for writes additionally torn prefixes."""
     pts = []
     for (n, op, path, a, b) in oplog:
         pts.append((n, -1, op))
-        if op in ('write', 'pwrite', 'writev') and a > 1:
-            for t in sorted({1, a // 2, a - 1}):
+        if op in ('write', 'pwrite', 'writev') and a > 1 and tears != 'none':
+            for t in sorted({1, a // 2, a - 1} if tears == 'all' else {a // 2}):
                 if 0 < t < a:
                     pts.append((n, t, op + '-torn'))
     # and "after the last op" = no crash in this save is covered by the crash points of the next save
@@ -207,7 +208,8 @@ def _short(s):
 
 
 def partA(unit):
-    _, fmt, kind, save_idx, depth, tier = unit
+    _, fmt, kind, save_idx, depth, tier = unit[:6]
+    tears1, tears2, saves2 = unit[6:9] if len(unit) > 6 else ('all', 'all', 2)
     wd = tempfile.mkdtemp(prefix='c18_', dir=os.environ.get('VERIF_WORKDIR'))
     srv = Server(wd)
     viol, keys, outcomes = [], set(), set()
@@ -228,7 +230,7 @@ def partA(unit):
             return dict(evaluations=1, samples=[dict(note='only %d saves' % n_saves)])
         seen = set()
         # level 1: fresh run killed inside save `save_idx`
-        level1 = [[['fresh', [save_idx, n, t, o]]] for (n, t, o) in crash_points(logs[save_idx])]
+        level1 = [[['fresh', [save_idx, n, t, o]]] for (n, t, o) in crash_points(logs[save_idx], tears1)]
         frontier = []
         for h in level1:
             hist.clean()
@@ -262,8 +264,8 @@ def partA(unit):
                 n2 = 0
                 while os.path.exists('%s.%d' % (rec2, n2 + 1)):
                     n2 += 1
-                for s2 in range(1, min(n2, 2) + 1):
-                    for (n, t, o) in crash_points(read_oplog(rec2, s2)):
+                for s2 in range(1, min(n2, saves2) + 1):
+                    for (n, t, o) in crash_points(read_oplog(rec2, s2), tears2):
                         h2 = h + [['resume', [s2, n, t, o]]]
                         hist.clean()
                         _replay(hist, h)
@@ -295,20 +297,34 @@ def _replay(hist, h):
 
 def units(tier, seed, label):
     us = []
-    for fmt in ('pkl', 'h5'):
+    for fmt in ('h5', 'pkl'):
         for kind in ('dmrg',) if tier == 'quick' else ('dmrg', 'tebd'):
             for s in (1, 2, 3, 4) if tier == 'quick' else (1, 2, 3, 4, 5):
-                us.append(('A', fmt, kind, s, 2 if tier == 'quick' else 3, tier))
+                if tier == 'quick' and fmt == 'h5':
+                    # HDF5 saves consist of ~100 pwrite operations: quick = every operation of the 1st and 2nd save,
+                    # torn writes at half length, second crash (after resume) before every operation of the first save
+                    if s <= 2:
+                        us.append(('A', fmt, kind, s, 2 if s == 2 else 1, tier, 'mid', 'none', 1))
+                else:
+                    us.append(('A', fmt, kind, s, 2 if tier == 'quick' else 3, tier, 'all', 'all', 2))
+    for (name, simcls, params) in partB_configs(tier):
+        for fmt in ('pkl',) if tier == 'quick' else ('pkl', 'h5'):
+            us.append(('B', name, simcls, params, fmt, tier))
     return us
 
 
 def run_unit(unit):
     if unit[0] == 'A':
         return partA(unit)
-    raise ValueError(unit)
+    return partB(unit)
 
 
 def replay(case):
+    if case.get('part') == 'B':
+        cfg = [c for c in partB_configs(case['tier']) if c[0] == case['name']][0]
+        r = partB(('B', cfg[0], cfg[1], cfg[2], case['fmt'], case['tier']))
+        r['violations'] = [v for v in r['violations'] if v['case'].get('resume_from') == case.get('resume_from')]
+        return r
     wd = tempfile.mkdtemp(prefix='c18_', dir=os.environ.get('VERIF_WORKDIR'))
     srv = Server(wd)
     viol = []
@@ -320,3 +336,173 @@ def replay(case):
         srv.close()
         shutil.rmtree(wd, ignore_errors=True)
     return dict(evaluations=1, violations=viol)
+
+
+# ------------------------------------------------------------------------------------------------ Part B
+
+def partB_configs(tier):
+    """(name, simulation class, parameters) of the resume-equivalence family."""
+    base = dict(overwrite_output=True, save_every_x_seconds=0.0, log_params=dict(to_stdout=None, to_file=None), model_class='XXZChain',
+                model_params=dict(L=4, Jxx=1.0, Jz=0.5, hz=0.1, bc_MPS='finite'),
+                initial_state_params=dict(method='lat_product_state', product_state=[['up'], ['down']]),
+                connect_measurements=[['tenpy.simulations.measurement', 'm_onsite_expectation_value', dict(opname='Sz')],
+                                      ['psi_method', 'wrap correlation_function', dict(results_key='SpSm', ops1='Sp', ops2='Sm')]])
+    dm = dict(min_sweeps=4, max_sweeps=4, max_E_err=1e-30, max_S_err=1e-30, N_sweeps_check=1, trunc_params=dict(chi_max=8, svd_min=1e-12))
+    out = []
+
+    def gs(name, alg, ap, **extra):
+        p = copy.deepcopy(base)
+        p.update(algorithm_class=alg, algorithm_params=ap)
+        p.update(extra)
+        out.append((name, 'GroundStateSearch', p))
+
+    def te(name, alg, ap, final_time=0.4, **extra):
+        p = copy.deepcopy(base)
+        p.update(algorithm_class=alg, algorithm_params=ap, final_time=final_time)
+        p.update(extra)
+        out.append((name, 'RealTimeEvolution', p))
+
+    gs('dmrg2', 'TwoSiteDMRGEngine', dict(dm, mixer=False))
+    gs('dmrg2-mixer', 'TwoSiteDMRGEngine', dict(dm, mixer=True, mixer_params=dict(amplitude=1e-3, decay=2.0, disable_after=3)))
+    gs('dmrg1-mixer', 'SingleSiteDMRGEngine', dict(dm, mixer=True, mixer_params=dict(amplitude=1e-3, decay=2.0, disable_after=3)))
+    gs('dmrg2-chi_list', 'TwoSiteDMRGEngine', dict(dm, mixer=False, chi_list={0: 2, 2: 8}))
+    te('tebd-trunc', 'TEBDEngine', dict(dt=0.05, N_steps=2, order=2, trunc_params=dict(chi_max=2, svd_min=1e-12)))
+    te('tebd4', 'TEBDEngine', dict(dt=0.05, N_steps=2, order=4, trunc_params=dict(chi_max=8, svd_min=1e-12)))
+    te('tdvp2', 'TwoSiteTDVPEngine', dict(dt=0.05, N_steps=2, trunc_params=dict(chi_max=8, svd_min=1e-12)))
+    te('expmpo', 'ExpMPOEvolution', dict(dt=0.05, N_steps=2, order=2, approximation='II', compression_method='SVD', trunc_params=dict(chi_max=8, svd_min=1e-12)))
+    if tier != 'quick':
+        te('tdvp1', 'SingleSiteTDVPEngine', dict(dt=0.05, N_steps=2, trunc_params=dict(chi_max=8)), initial_state_params=dict(method='lat_product_state', product_state=[['up'], ['down']]))
+        gs('dmrg2-group', 'TwoSiteDMRGEngine', dict(dm, mixer=False), group_sites=2)
+        te('tebd-imag-like', 'TEBDEngine', dict(dt=0.05, N_steps=1, order=1, trunc_params=dict(chi_max=4, svd_min=1e-12)), final_time=0.3)
+    return out
+
+
+def _ckpt_class(base_name, store):
+    """Subclass keeping a copy of the output file after every save (the files a user could resume from)."""
+    from tenpy.simulations.simulation import Simulation
+    from tenpy.tools.misc import find_subclass
+    Base = find_subclass(Simulation, base_name)
+
+    def save_results(self, results=None):
+        res = Base.save_results(self, results)
+        if self.output_filename is not None and not self.results.get('finished_run', False):
+            k = len(store)
+            root, ext = os.path.splitext(str(self.output_filename))
+            dst = '%s_ckpt%d%s' % (root, k, ext)
+            shutil.copy(str(self.output_filename), dst)
+            store.append(dst)
+        return res
+
+    cls = type('Ckpt' + base_name, (Base,), {'save_results': save_results, '__module__': __name__})
+    globals()[cls.__name__] = cls  # resume_from_checkpoint looks the class up by module + name
+    return cls
+
+
+def _final_obs(results):
+    """What must agree between an uninterrupted and a resumed run."""
+    psi = results['psi']
+    obs = dict(measurements={k: np.array(v) for k, v in results.get('measurements', {}).items()})
+    obs['psi'] = psi
+    if 'energy' in results:
+        obs['energy'] = float(np.real(results['energy']))
+    obs['sweep_E'] = list(np.real(results['sweep_stats']['E'])) if 'sweep_stats' in results and 'E' in results['sweep_stats'] else None
+    return obs
+
+
+def partB(unit):
+    import logging
+    import warnings
+    logging.disable(logging.CRITICAL)
+    warnings.simplefilter('ignore')
+    from tenpy.simulations.simulation import resume_from_checkpoint
+    from tenpy.tools import hdf5_io
+    _, name, simcls, params, fmt, tier = unit
+    wd = tempfile.mkdtemp(prefix='c18b_', dir=os.environ.get('VERIF_WORKDIR'))
+    viol, keys = [], set()
+    ev = 0
+    sample = None
+
+    def bad(key, what, case):
+        if len(viol) < 12:
+            viol.append(dict(key='B:%s:%s' % (name, key), what=what, case=dict(part='B', name=name, fmt=fmt, tier=tier, **case)))
+
+    try:
+        store = []
+        cls = _ckpt_class(simcls, store)
+        p = copy.deepcopy(params)
+        p['output_filename'] = os.path.join(wd, 'full.' + fmt)
+        sim = cls(p)
+        with sim:
+            ref = sim.run()
+        ref_obs = _final_obs(ref)
+        n_ref = {k: len(v) for k, v in ref_obs['measurements'].items()}
+        sample = dict(part='B', name=name, checkpoints=len(store), measurement_lengths=n_ref)
+
+        def compare(res, what, case):
+            o = _final_obs(res)
+            if set(o['measurements']) != set(ref_obs['measurements']):
+                bad('measurement-keys', '%s: measurement keys %s vs uninterrupted %s' % (what, sorted(o['measurements']), sorted(ref_obs['measurements'])), case)
+                return
+            for k, v in o['measurements'].items():
+                r = ref_obs['measurements'][k]
+                if k in ('walltime',):
+                    if len(v) != len(r):
+                        bad('measurement-count', '%s: %d measurements of %r, uninterrupted run has %d (lost or duplicated)' % (what, len(v), k, len(r)), case)
+                    continue
+                if len(v) != len(r):
+                    bad('measurement-count', '%s: %d measurements of %r, uninterrupted run has %d (lost or duplicated)' % (what, len(v), k, len(r)), case)
+                    continue
+                try:
+                    va, ra = np.array(v, dtype=complex), np.array(r, dtype=complex)
+                except (TypeError, ValueError):
+                    continue
+                if va.shape != ra.shape or np.abs(va - ra).max() > 1e-7 * (1 + np.abs(ra).max()):
+                    bad('measurement-values:' + str(k), '%s: values of %r differ from the uninterrupted run: %s vs %s' % (what, k, np.round(va, 9).tolist(), np.round(ra, 9).tolist()), case)
+            if 'energy' in ref_obs and abs(o.get('energy', np.nan) - ref_obs['energy']) > 1e-8:
+                bad('energy', '%s: final energy %r vs %r' % (what, o.get('energy'), ref_obs['energy']), case)
+            ov = abs(o['psi'].overlap(ref_obs['psi']))
+            if abs(ov - abs(ref_obs['psi'].overlap(ref_obs['psi']))) > 1e-6:
+                bad('final-state', '%s: |<resumed|uninterrupted>| = %r' % (what, ov), case)
+
+        for k, ck in enumerate(store):
+            ev += 1
+            keys.add('B:%s:%s:ckpt%d' % (name, fmt, k))
+            try:
+                res = resume_from_checkpoint(filename=ck, update_sim_params=dict(output_filename=os.path.join(wd, 'res%d.%s' % (k, fmt))))
+            except Exception as e:  # noqa: BLE001
+                import traceback
+                bad('resume-raises:' + type(e).__name__, 'resume from checkpoint %d raised: %s' % (k, traceback.format_exc()[-1200:]), dict(resume_from=[k]))
+                continue
+            compare(res, 'resumed from checkpoint %d of %d' % (k, len(store)), dict(resume_from=[k]))
+        # resume of a resumed run: interrupt the resumed run again at its first checkpoint
+        if len(store) >= 2:
+            ev += 1
+            store2 = []
+            cls2 = _ckpt_class(simcls, store2)
+            from tenpy.tools import hdf5_io as h
+            ck = h.load(store[0])
+            sim2 = cls2.from_saved_checkpoint(checkpoint_results=ck)
+            sim2.options['output_filename'] = os.path.join(wd, 'again.' + fmt)
+            sim2.output_filename = type(sim2.output_filename)(os.path.join(wd, 'again.' + fmt)) if sim2.output_filename is not None else None
+            sim2._backup_filename = sim2.get_backup_filename(sim2.output_filename)
+            try:
+                with sim2:
+                    sim2.resume_run()
+            except Exception as e:  # noqa: BLE001
+                import traceback
+                bad('resume-raises:' + type(e).__name__, 'resume from checkpoint 0 (kept for a second resume) raised: %s' % traceback.format_exc()[-1200:], dict(resume_from=[0, 0]))
+                store2 = []
+            if store2:
+                try:
+                    res = resume_from_checkpoint(filename=store2[0], update_sim_params=dict(output_filename=os.path.join(wd, 'again2.' + fmt)))
+                    compare(res, 'resumed from checkpoint 0, then again from the first checkpoint of the resumed run', dict(resume_from=[0, 0]))
+                    keys.add('B:%s:%s:double' % (name, fmt))
+                except Exception as e:  # noqa: BLE001
+                    import traceback
+                    bad('resume-raises:' + type(e).__name__, 'second resume raised: %s' % traceback.format_exc()[-1200:], dict(resume_from=[0, 0]))
+    except Exception as e:  # noqa: BLE001
+        import traceback
+        bad('exception:' + type(e).__name__, traceback.format_exc()[-1500:], dict(resume_from=[]))
+    finally:
+        shutil.rmtree(wd, ignore_errors=True)
+    return dict(evaluations=ev, keys=keys, violations=viol, samples=[sample] if sample else [])
